@@ -174,7 +174,7 @@ theorem spec_empty (o : Nat) : (specLine [] o, specCol [] o) = (1, 0) := by
   rw [spec_is_fold]; rfl
 
 /-! ## Non-vacuity: the specification on hand-checked texts, and the four unit tests of
-    `sourcemap.rs` run on the code model (kernel evaluation, no `native_decide`). -/
+    `sourcemap.rs` run on the code model (evaluated by the kernel: `decide +kernel`). -/
 
 /-- evaluation helper: the code returned exactly `p` (a panic is `false`) -/
 def posIs (r : Except Panic (Nat × Nat)) (p : Nat × Nat) : Bool :=
